@@ -674,7 +674,7 @@ class Predicate(metaclass=abc.ABCMeta):
                     if k in left and k in right and hash(left[k]) != hash(right[k])
                     else left[k]
                     if k in left
-                    else right
+                    else right[k]
                     for k in left.keys() | right.keys()
                 )
             )
@@ -756,7 +756,9 @@ class Or(Logical, Infix):
 
     @functools.cached_property
     def factors(self: 'Or') -> 'dsl.Predicate.Factors':
-        return self.left.factors | self.right.factors
+        left, right = self.left.factors, self.right.factors
+        common = left.keys() & right.keys()  # one-sided factors do not constrain a disjunction
+        return Predicate.Factors(*(left[k] for k in common)) | Predicate.Factors(*(right[k] for k in common))
 
 
 class Not(Logical, Prefix):
@@ -766,7 +768,7 @@ class Not(Logical, Prefix):
 
     @property
     def factors(self: 'Not') -> 'dsl.Predicate.Factors':
-        return self.operand.factors
+        return Predicate.Factors(self) if len({f.origin for f in Element.dissect(self)}) == 1 else Predicate.Factors()
 
 
 class Comparison(Predicate):
